@@ -21,6 +21,13 @@ def _cleanup(res, keep=False):
         shutil.rmtree(d)
 
 
+def _rmtree(d):
+    import os
+    import shutil
+    if os.path.isdir(d):
+        shutil.rmtree(d)
+
+
 def _profiles(tier, quick=('checked',), thorough=('checked', 'release')):
     return thorough if tier == 'thorough' else quick
 
@@ -69,6 +76,45 @@ def c02(tier, seed, case=None):
         v.add_offline('check_c02.strict-validator(release build, second seed)', c2['files'], d2, samples2, viols2, c2)
         _cleanup(r2)
     _cleanup(r, keep=bool(viols))
+    return v
+
+
+# --------------------------------------------------------------------------------------- C03
+REQUIRED_C03_FEATURES = ['no-M-block', 'null-record', 'zero-parts', 'zero-points', 'empty-part', 'one-vertex-part',
+                         'arbitrary-record-numbers', 'trailing-bytes']
+
+
+def c03(tier, seed, case=None):
+    import os
+    import gen_c03
+    import check_c03
+    from driver import OUT
+    v = _mk('C03', tier, seed, 'exploration',
+            'one case = one spec-conformant .shp built by the independent reference encoder (shpref.py) from a random model: any of '
+            'the 14 type codes, 0..5 records, per-record layout features the library never writes (M block absent, PointZ without M, '
+            'null records inside a typed file, 0 parts / 0 points, empty and one-vertex parts, arbitrary stored boxes and record '
+            'numbers, bytes after the declared length), all float pools incl. raw random bit patterns; the library decodes it '
+            '(read, iter_shapes, read_as / iter_shapes_as when homogeneous) and the dumps are compared with the model. distinct = '
+            '(type code, feature set, part counts); non-trivial = every file with >= 1 record',
+            ['shpref.py encodes the whitepaper layouts correctly; it is the same module whose decoder validates the writer in C02 (each direction checks the other)'])
+    per = 100 if tier == 'quick' else 5000
+    gen_dir = os.path.join(OUT, 'C03', tier, 'gen')
+    _rmtree(gen_dir)
+    n = gen_c03.generate(gen_dir, seed, per)
+    profs = _profiles(tier)
+    viols_any = False
+    for prof in profs:
+        r = run_engine('C03', 'decode', prof, tier, seed, opts={'dir': gen_dir}, case=case, tag='decode-' + prof)
+        v.add_run(r)
+        counters, viols, samples, distinct, feats = check_c03.check(gen_dir, r['_out'], only=case)
+        guards = {'files compared': (counters['files'], 1 if case else n)}
+        for f in REQUIRED_C03_FEATURES:
+            guards['layout feature observed: ' + f] = (feats.get(f, 0), 1 if case else 20)
+        guards['ring roles checked on exact-pool rings'] = (counters['role_checks_exact_pool'], 0 if case else 20)
+        v.add_offline('check_c03.model-compare(%s)' % prof, counters['files'], distinct, samples, viols, counters, guards=guards)
+        viols_any = viols_any or bool(viols)
+    if not viols_any:
+        _rmtree(gen_dir)
     return v
 
 
@@ -125,6 +171,38 @@ def c06(tier, seed, case=None):
     return v
 
 
+# --------------------------------------------------------------------------------------- C14
+def c14(tier, seed, case=None):
+    import os
+    import gen_c14
+    import check_c14
+    from driver import OUT
+    max_n = 4 if tier == 'quick' else 6
+    v = _mk('C14', tier, seed, 'exploration',
+            'one case = a .shp laid out by the reference encoder with n = 1..%d records in one physical permutation (ALL permutations '
+            'for every n) x filler pattern {none, everywhere, random; zero bytes, random bytes, bytes that look like records} x 6 '
+            'record types, header length covering the whole file, plus a .shx in logical order; the library reads it with the index '
+            '(iteration, read_nth_shape for every i and two past the end, shape_count) and the dumps are compared with the model in '
+            'index order; the instrumented source counts the seeks. distinct = (type, permutation, filler pattern); non-trivial = all' % max_n,
+            ['shpref.py encodes records correctly (cross-checked in C02/C03)'], exhaustive=True)
+    gen_dir = os.path.join(OUT, 'C14', tier, 'gen')
+    _rmtree(gen_dir)
+    n = gen_c14.generate(gen_dir, seed, max_n)
+    viols_any = False
+    for prof in _profiles(tier):
+        r = run_engine('C14', 'decode', prof, tier, seed, opts={'dir': gen_dir, 'routes': 'idx'}, case=case, tag='decode-' + prof)
+        v.add_run(r)
+        counters, viols, samples, distinct = check_c14.check(gen_dir, r['_out'], only=case)
+        v.add_offline('check_c14.index-order(%s)' % prof, counters['files'], distinct, samples, viols, counters,
+                      guards={'files compared': (counters['files'], 1 if case else n),
+                              'files whose indexed iteration had to seek': (counters['files_where_iteration_had_to_seek'], 0 if case else 50)})
+        viols_any = viols_any or bool(viols)
+    v.extra['exhaustive_scope'] = 'all permutations of the physical order for every n <= %d; filler contents and record geometry are sampled' % max_n
+    if not viols_any:
+        _rmtree(gen_dir)
+    return v
+
+
 # --------------------------------------------------------------------------------------- C16
 def c16(tier, seed, case=None):
     v = _mk('C16', tier, seed, 'exploration',
@@ -166,4 +244,4 @@ def c19(tier, seed, case=None):
     return v
 
 
-PLANS = {'C02': c02, 'C04': c04, 'C01': c01, 'C05': c05, 'C06': c06, 'C16': c16, 'C18': c18, 'C19': c19}
+PLANS = {'C14': c14, 'C03': c03, 'C02': c02, 'C04': c04, 'C01': c01, 'C05': c05, 'C06': c06, 'C16': c16, 'C18': c18, 'C19': c19}
